@@ -374,8 +374,11 @@ def main_check(spec, argv):
             exes[cfgname] = exe
             before = dict(res.counters)
             cases_before = res.cases
+            # the first configuration carries the full enumeration; the others repeat it, thinned where a
+            # harness honours --light (only the 2^32-value sweeps do)
+            extra = ["--light"] if (tier == "thorough" and cfgname != configs[0]) else []
             run_harness(exe, os.path.join(workdir, cfgname, "out"), tier, seed, res, nshards=args.jobs,
-                        unit_timeout=spec.get("unit_timeout", 300), cfgname=cfgname)
+                        extra_args=extra, unit_timeout=spec.get("unit_timeout", 300), cfgname=cfgname)
             per_config[cfgname] = {"cases": res.cases - cases_before}
         for hook in spec.get("post", []):
             hook(spec, workdir, tier, seed, res, per_config)
